@@ -34,7 +34,7 @@ func gen(t *common.Trace, e common.Engine, r *common.Rng, thorough bool) {
 	ncases := 250
 	nops := 1500
 	if thorough {
-		ncases = 4000
+		ncases = 1500
 		nops = 3000
 	}
 	// corpus: the proved counterexample C01_forwarded_number_false_for_R8194 (Props/C01Deep.lean):
